@@ -302,7 +302,7 @@ def rule_round(ctx: Ctx, rule: str = "C04.2") -> None:
               "truncate_decimal(base, base_precision)", f"base amount stored as {ast.unparse(bval)[:60]}", key_text="base truncated")
     orig = A.dotted(bval.args[0]) if okb else None
     # quote: last store is round_decimal(q, quote_precision) and q was re-derived from the truncated base
-    last = sorted(quote_st, key=lambda s: s.stmt.lineno)[-1]
+    last = sorted(quote_st, key=lambda s: A.seq(s.stmt))[-1]
     qv = last.node.value if not isinstance(last.node, ast.AugAssign) else None
     okq = isinstance(qv, ast.Call) and (A.call_name(qv) or "").endswith("round_decimal") and len(qv.args) >= 2 \
         and (A.dotted(qv.args[1]) or "").endswith("quote_precision") and not qv.keywords
@@ -313,7 +313,7 @@ def rule_round(ctx: Ctx, rule: str = "C04.2") -> None:
     if okq and isinstance(qv.args[0], ast.Name) and tname and orig:
         qn = qv.args[0].id
         for s in A.stores(fn):
-            if isinstance(s.target, ast.Name) and s.target.id == qn and hasattr(s.node, "value") and s.stmt.lineno < last.stmt.lineno:
+            if isinstance(s.target, ast.Name) and s.target.id == qn and hasattr(s.node, "value") and A.seq(s.stmt) < A.seq(last.stmt):
                 names = {x.id for x in ast.walk(s.node.value) if isinstance(x, ast.Name)}
                 ops = {type(x.op) for x in ast.walk(s.node.value) if isinstance(x, ast.BinOp)}
                 if {qn, tname, orig} <= names and ast.Mult in ops and ast.Div in ops:
